@@ -2,6 +2,7 @@
 package main
 
 import (
+	"strings"
 	"flag"
 	"fmt"
 	"os"
@@ -36,6 +37,13 @@ func main() {
 			defer wg.Done()
 			for j := range jobs {
 				tr, err := world.RunScenario(j.s)
+				// the Atomix test cluster occasionally does not deliver an event of a stream opened a moment before
+				// (seen about once in a thousand worlds): an infrastructure failure is retried in a fresh world, and
+				// only reported when it persists
+				for attempt := 0; err != nil && strings.Contains(err.Error(), "infra:") && attempt < 2; attempt++ {
+					fmt.Fprintf(os.Stderr, "retry: scenario %s: %v\n", j.s.Name, err)
+					tr, err = world.RunScenario(j.s)
+				}
 				name := j.s.Name
 				if name == "" {
 					name = fmt.Sprintf("s%05d", j.i)
